@@ -132,10 +132,12 @@ func (g *G) leaf(t Typ, needAnchor bool) *E {
 	}
 	if len(g.vars) > 0 && g.r.Chance(1, 4) {
 		v := g.vars[g.r.Intn(len(g.vars))]
-		if v.t != t {
+		if v.t != t && !(v.t.IsInt() && t.IsInt() && v.t.Signed() != t.Signed() && v.t.Bits() != t.Bits() && !g.r.Chance(1, 4)) {
 			return mkCast(t, mkVar(v.name, v.t))
 		}
-		return mkVar(v.name, v.t)
+		if v.t == t {
+			return mkVar(v.name, v.t)
+		}
 	}
 	bare := !needAnchor && g.r.Chance(3, 5)
 	l := g.lit(t, bare)
@@ -175,11 +177,7 @@ func (g *G) expr(t Typ, depth int, needAnchor bool) *E {
 	case n < 76 && (t.Signed() || t.IsFloat()):
 		return mkNeg(g.expr(t, depth-1, needAnchor))
 	case n < 95:
-		from := g.pickType()
-		if from == t && g.r.Chance(4, 5) {
-			from = g.pickType()
-		}
-		return mkCast(t, g.expr(from, depth-1, true))
+		return mkCast(t, g.expr(g.castSource(t), depth-1, true))
 	}
 	return g.leaf(t, needAnchor)
 }
@@ -193,6 +191,24 @@ func (g *G) swapOK(b *E) bool {
 		return g.r.Chance(1, 8)
 	}
 	return g.r.Bool()
+}
+
+// castSource picks the operand type of a cast to t. Integer casts that change signedness
+// AND width are defined by spec.md only for values the target can hold (otherwise the
+// truncation and saturation rules conflict), so they are drawn less often (1 in 4) than
+// the fully defined pairs.
+func (g *G) castSource(t Typ) Typ {
+	for tries := 0; tries < 6; tries++ {
+		from := g.pickType()
+		if from == t && g.r.Chance(4, 5) {
+			continue
+		}
+		if from.IsInt() && t.IsInt() && from.Signed() != t.Signed() && from.Bits() != t.Bits() && !g.r.Chance(1, 4) {
+			continue
+		}
+		return from
+	}
+	return g.pickType()
 }
 
 func (g *G) cmp(depth int) *E {
@@ -551,7 +567,7 @@ func (g *G) finalReturn(f *Func) *S {
 // failure of the construct cannot hide the rest of a program.
 // ---------------------------------------------------------------------------------------
 
-var quirkNames = []string{"float-mod", "literal-logic", "non-u8-cond", "min-literal", "u64-big-literal", "literal-range", "not-literal"}
+var quirkNames = []string{"float-mod", "literal-logic", "non-u8-cond", "min-literal", "u64-big-literal", "literal-range", "not-literal", "mixed-pow", "unit-suffix"}
 
 func genQuirkFunc(r *prng.R, name string) (*Func, string) {
 	q := quirkNames[r.Intn(len(quirkNames))]
@@ -563,6 +579,26 @@ func genQuirkFunc(r *prng.R, name string) (*Func, string) {
 		f.Ret = t
 		f.Params = []Param{{"p0", t}, {"p1", t}}
 		f.Body = []*S{{K: SReturn, X: mkArith("%", mkVar("p0", t), mkVar("p1", t))}}
+	case "mixed-pow":
+		// "No mixed-type arithmetic": base and exponent of different types must be rejected,
+		// or, if accepted, compile to a valid module
+		t := allTyps[r.Intn(len(allTyps))]
+		u := allTyps[r.Intn(len(allTyps))]
+		for u == t {
+			u = allTyps[r.Intn(len(allTyps))]
+		}
+		f.Ret = t
+		f.NoRef = true
+		f.Params = []Param{{"p0", t}, {"p1", u}}
+		f.Body = []*S{{K: SReturn, X: &E{K: KArith, Op: "^", T: t, A: mkVar("p0", t), B: mkVar("p1", u)}}}
+	case "unit-suffix":
+		// a literal glued to an identifier is a unit literal; unknown units must be
+		// diagnosed by the analyzer, not by the compiler
+		f.Ret = I64
+		f.NoRef = true
+		f.Params = []Param{{"p0", I64}}
+		suffix := []string{"xyz", "e5", "q", "kg2", "ms", "s", "hz"}[r.Intn(7)]
+		f.Body = []*S{{K: SReturn, X: mkArith("+", mkVar("p0", I64), &E{K: KLit, T: I64, Text: strconv.Itoa(r.Range(1, 9)) + suffix, V: intValue(I64, 0), Bare: true})}}
 	case "literal-logic":
 		// spec.md "Boolean Semantics": result := 2 and 3 // 1
 		f.Ret = U8
